@@ -394,7 +394,7 @@ fn plain_to_sexp(original: &Program, r: &Result<Program, ProgramError>, t: &mut 
 /// * `mapped` = the borrowing `Program::expand_defgate_sequences_with_source_map`; `ls` = for every target index
 ///   the source indices `SourceMap::list_sources` returns, `lt` = for every source index how many targets
 ///   `list_targets` returns
-/// * `fullsame` = both returned programs are the same in every component (or both failed with equal errors)
+/// * `fullsame` = both returned programs are the same in every component (or both failed)
 /// * `again` = sequences of calls: expanding the result a second time with the same filter changes nothing, and a
 ///   second call of the borrowing variant on the same program returns the same program and map
 /// * `errfmt` = every returned error was formatted (Display, alternate, Debug, source chain)
@@ -437,7 +437,9 @@ pub fn observe(program: &Program, sel: &[String], t: &mut PhTable) -> Sexp {
             (sexp, fullsame, again)
         }
         Err(e) => {
-            let fullsame = matches!(&plain, Err(p) if format!("{p:?}") == format!("{e:?}") && p == e);
+            // both entry points fail; WHICH of several applicable errors each reports is compared by the driver
+            // (kinds only), not here
+            let fullsame = plain.is_err();
             let again = matches!(program.expand_defgate_sequences_with_source_map(filter_of(sel)), Err(e2) if format!("{e2:?}") == format!("{e:?}"));
             (tagged("err", vec![program_error_to_sexp(e, t)]), fullsame, again)
         }
